@@ -224,7 +224,7 @@ var loopSpecs = []loopSpec{
 	{fn: "keeper.Keeper.GetUnbondingsByDenomAndDelegator", what: "entries of an index-reached bucket", anchor: []string{"builtin.append"},
 		skips: []skipCond{{"binop", true, ".ValidatorAddress !=", "entry of another validator"}, {"binop", true, ".Balance.Denom !=", "entry of another denom"}}, props: []string{"C20"}},
 	{fn: "keeper.Keeper.GetUnbondings", what: "index keys of the queried validator", anchor: []string{"storetypes.KVStore.Get", "corestore.KVStore.Get"}, outer: true,
-		skips: []skipCond{{"bytes.HasSuffix", false, "", "index key of another denom/delegator"}, {"bytes.HasPrefix", false, "", "index key of another validator"}}, props: []string{"C20"}},
+		skips: []skipCond{{"bytes.HasSuffix", false, "", "index key of another denom/delegator"}, {"bytes.HasPrefix", false, "", "index key of another validator"}, {"binop", true, "builtin.len(", "key shorter than the suffix"}}, props: []string{"C20"}},
 	{fn: "keeper.Keeper.GetUnbondingsByDenomAndDelegator", what: "index keys of all validators", anchor: []string{"storetypes.KVStore.Get", "corestore.KVStore.Get"}, outer: true,
 		skips: []skipCond{{"bytes.HasSuffix", false, "", "index key of another denom/delegator"}, {"binop", true, "builtin.len(", "key shorter than the suffix"}}, props: []string{"C20"}},
 	{fn: "keeper.Keeper.InitGenesis", what: "entries of an imported unbonding bucket", anchor: []string{"keeper.Keeper.setUnbondingIndexByVal"}, props: []string{"C18"}},
@@ -401,6 +401,14 @@ func init() {
 								r.Bad(s.fn, construct+": stops only on error", "the callback returns true (stop iterating) on a path that is not an error path: the remaining elements are never visited", nil, r.P(ret))
 							}
 						case t.Op == "const" && t.Name == "false":
+							if len(via) > 0 {
+								if trail := fa.MustPassThrough(nil, ret, via); trail != nil {
+									bad = true
+									r.Bad(s.fn, construct+": every element is processed", "the callback continues with the next element without having applied its effect to this one", trail, r.P(ret))
+								}
+							}
+						case t.Op == "binop" && t.Name == "!=" && t.Args[1].Op == "const" && t.Args[1].Name == "nil" && t.Args[0].Val != nil && isErrorType(t.Args[0].Val.Type()):
+							// `return err != nil`: stops exactly when the effect failed; the effect must have been applied
 							if len(via) > 0 {
 								if trail := fa.MustPassThrough(nil, ret, via); trail != nil {
 									bad = true
